@@ -501,6 +501,22 @@ def _arange_exact(*a, dtype=None, **kw):
 EXACT_ARANGE_MODULES = ('teneva.func', 'teneva.func_full')
 
 
+def _isclose(a, b, rtol=1.e-05, atol=1.e-08, equal_nan=False):
+    """|a - b| <= atol + rtol |b| elementwise (decided per element: forks)."""
+    if not (has_sym(a) or has_sym(b)):
+        return _np.isclose(a, b, rtol=rtol, atol=atol, equal_nan=equal_nan)
+    a2, b2 = _np.broadcast_arrays(_np.asarray(a, dtype=object), _np.asarray(b, dtype=object))
+    out = _np.empty(a2.shape, dtype=bool)
+    for idx in _np.ndindex(a2.shape):
+        x, y = Sym.lift(a2[idx]), Sym.lift(b2[idx])
+        out[idx] = bool(abs(x - y) <= abs(y) * rtol + atol)
+    return out
+
+
+def _allclose(a, b, rtol=1.e-05, atol=1.e-08, equal_nan=False):
+    return bool(_np.all(_isclose(a, b, rtol, atol, equal_nan)))
+
+
 class NPProxy:
     def __init__(self, modname=''):
         from . import stubs
@@ -509,7 +525,7 @@ class NPProxy:
             'eye': _eye, 'identity': _identity, 'array': _array,
             'asarray': _asarray, 'asanyarray': _asanyarray, 'copy': _copy,
             'linspace': _linspace, 'unique': _unique, 'sqrt': _sqrt, 'abs': _abs, 'absolute': _abs,
-            'isinf': _isinf, 'isnan': _isnan, 'isfinite': _isfinite,
+            'isinf': _isinf, 'isnan': _isnan, 'isfinite': _isfinite, 'isclose': _isclose, 'allclose': _allclose,
             'max': _reduce_atom('max'), 'min': _reduce_atom('min'),
             'amax': _reduce_atom('max'), 'amin': _reduce_atom('min'),
             'maximum': _maximum, 'minimum': _minimum,
